@@ -13,7 +13,7 @@ class Case:
 
 def _run_exe(exe, text, timeout, env=None):
     try:
-        p = subprocess.run([exe], input=text, stdout=subprocess.PIPE, stderr=subprocess.PIPE, timeout=timeout,
+        p = subprocess.run(exe if isinstance(exe, list) else [exe], input=text, stdout=subprocess.PIPE, stderr=subprocess.PIPE, timeout=timeout,
                            text=True, errors="replace", env=env)
         return p.returncode, p.stdout, p.stderr
     except subprocess.TimeoutExpired as e:
@@ -122,12 +122,14 @@ class Stream:
         self.name = name; self.cases = 0; self.commands = 0; self.mismatches = 0
         self.distinct = set(); self.samples = []; self.dist = {}
 
-def compare_stream(ctx, name, cases, config="pinned", oracle=None, known=None, timeout=900, env=None, impl_only=False):
+def compare_stream(ctx, name, cases, config="pinned", oracle=None, known=None, timeout=900, env=None, impl_only=False, variant="spec"):
     """Run the cases through driver(config) and model; return dict(violations, known, coverage)."""
     res = {"violations": [], "known": [], "coverage": {}}
     if not cases:
         return res
     mdl = model.ensure_model()
+    if variant == "impl":
+        mdl = [mdl, "--impl"]
     drv, err = model.ensure_driver(ctx.bd, config)
     if drv is None:
         rp = vlib.write_replay(ctx.pid, "driver_build_%s" % config, {"kind": "broken-tie", "what": "the C++ driver does not compile against the current tree in configuration " + config, "detail": err[-4000:]})
@@ -176,13 +178,14 @@ def compare_stream(ctx, name, cases, config="pinned", oracle=None, known=None, t
         if key in seen_keys:
             continue
         seen_keys.add(key)
-        rp = vlib.write_replay(ctx.pid, "%s_%s_%d" % (name, config, len(res["violations"])), {
+        rp = vlib.write_replay(ctx.pid, "%s_%s_%s_%d" % (name, config, variant, len(res["violations"])), {
             "kind": kind, "stream": name, "configuration": config, "tag": c.tag,
+            "model_variant": "Spec.Url (the Standard's state machine)" if variant == "spec" else "Impl.Parser (model of the C++ parser)",
             "commands": small.lines, "commands_readable": [pretty(l) for l in small.lines],
             "implementation": [pretty_out(l) for l in od], "model": [pretty_out(l) for l in om],
-            "how_to_replay": "printf '%%s\\n' <commands> | %s   (and the model: %s)" % (drv, mdl)})
+            "how_to_replay": "printf '%%s\\n' <commands> | %s   (and the model: %s)" % (drv, " ".join(mdl) if isinstance(mdl, list) else mdl)})
         res["violations"].append((rp, "%s in stream %s: %s" % (kind, name, pretty(small.lines[-1])[:200]), False))
     secs = time.time() - t0
-    res["coverage"] = {"stream_" + name: {"cases": len(cases), "commands": ncmd, "disagreements": nmis,
+    res["coverage"] = {"stream_" + name + ("" if variant == "spec" else "_implmodel"): {"cases": len(cases), "commands": ncmd, "disagreements": nmis,
                                           "configuration": config, "wall_s": round(secs, 1)}}
     return res
